@@ -47,6 +47,9 @@ PROGRAMS = [
     ("return-complex", "return 1 + 2 * ii;"),
     ("return-null", "return null;"),
     ("return-typed-null", "return int();"),
+    # a null is printed as null whatever its type
+    ("return-null-table", "t:table; return t;"), ("return-null-table2", "return tab(int(), 1);"), ("return-null-string", "return str();"), ("return-null-bytes", "return raw();"),
+    ("return-null-tuple", "return tup();"), ("return-null-table-of-tuples", 'return tab(int(), tup(1, "a"));'), ("return-null-element", "t = tab(2, tab(1, 1)); t.put(0, null); return t.at(0);"),
     ("return-table", "return tab(2, 1);"),
     ("return-bytes", 'return raw("ab");'),
     ("return-nothing", 'print "r"; return;'),
@@ -98,6 +101,7 @@ EXPRS = ["1 + 2", '"a" + "b"', "2.5 * 2", "1 < 2", "null", "tup(1, \"x\")", "1 +
          # expressions that begin with a minus sign (they are not options)
          "-1 + 2", "-1", "- 1", "-(2 + 3)", "-2.5 * 2", "-ii", "-e", "-x + 1"]
 # words that follow a complete expression are an error, not something to ignore
+EXPRS += ["tab(int(),1)", "str()", "tup()", "raw()", "bool()"]
 EXPRS_EXTRA = ["1 2", "1 + 2 3", '"a" "b"', "1 )", "tup(1) 2", "1 print 2"]
 
 INTERACTIVE = [
